@@ -516,7 +516,12 @@ func scenShare(s *Sim) {
 		}
 	}
 	// producer
-	prod := s.Client("w0", kgo.RecordPartitioner(kgo.ManualPartitioner()))
+	txnProd := p.Knob("txn_prod", 0) != 0
+	popts := []kgo.Opt{kgo.RecordPartitioner(kgo.ManualPartitioner())}
+	if txnProd {
+		popts = append(popts, kgo.TransactionalID("txn-w0"), kgo.TransactionTimeout(60*time.Second))
+	}
+	prod := s.Client("w0", popts...)
 	produced := map[string]string{} // value -> tp
 	var pmu sync.Mutex
 	var members []*shMember
@@ -527,16 +532,55 @@ func scenShare(s *Sim) {
 		case a.Name == "prod":
 			s.Go(func() {
 				n := 0
+				open := false
+				var inTxn []string // values produced in the open transaction
+				var inTxnTP []string
 				for _, op := range a.Ops {
 					if op.Kind == "sleep" {
 						time.Sleep(time.Duration(op.A) * time.Millisecond)
 						continue
+					}
+					if op.Kind == "txn_end" {
+						if !open {
+							continue
+						}
+						open = false
+						ctx, cancel := context.WithTimeout(context.Background(), 30*time.Second)
+						err := prod.EndTransaction(ctx, kgo.TryCommit)
+						cancel()
+						if err != nil {
+							// outcome unknown to this harness: the records may or
+							// may not become visible; they are not required
+							s.Logf("PROD EndTransaction: %v", err)
+							s.Probe("share_txn_end_error")
+							return
+						}
+						s.Probe("share_txn_committed")
+						pmu.Lock()
+						for i, v := range inTxn {
+							produced[v] = inTxnTP[i]
+						}
+						pmu.Unlock()
+						inTxn, inTxnTP = nil, nil
+						continue
+					}
+					if txnProd && !open {
+						if err := prod.BeginTransaction(); err != nil {
+							s.Logf("PROD BeginTransaction: %v", err)
+							return
+						}
+						open = true
 					}
 					n++
 					v := fmt.Sprintf("s%d", n)
 					part := int32(op.B) % nparts
 					res := prod.ProduceSync(context.Background(), &kgo.Record{Topic: "t0", Partition: part, Value: []byte(v)})
 					if res.FirstErr() == nil {
+						if txnProd {
+							inTxn = append(inTxn, v)
+							inTxnTP = append(inTxnTP, tpKeyStr("t0", part))
+							continue
+						}
 						pmu.Lock()
 						produced[v] = tpKeyStr("t0", part)
 						pmu.Unlock()
